@@ -103,8 +103,13 @@ func (p *Pipe) Read(b []byte) (int, error) {
 	if len(p.segs) == 0 {
 		return 0, io.EOF
 	}
-	seg := &p.segs[0]
-	n := len(seg.data)
+	// like a real byte stream, one Read may return bytes of several writes: everything deliverable
+	// now is coalesced, up to len(b) and the drawn cap
+	avail := 0
+	for i := 0; i < len(p.segs) && p.segs[i].at <= p.s.Steps && avail < len(b); i++ {
+		avail += len(p.segs[i].data)
+	}
+	n := avail
 	if n > len(b) {
 		n = len(b)
 	}
@@ -112,15 +117,20 @@ func (p *Pipe) Read(b []byte) (int, error) {
 		n = 1 + p.ch.Intn(n-1, "pipe.short")
 		p.ShortReads++
 	}
-	copy(b, seg.data[:n])
-	seg.data = seg.data[n:]
-	p.HandedOut += n
-	if len(seg.data) == 0 {
-		p.segs = p.segs[1:]
-		if p.eofWithLast && p.closed && len(p.segs) == 0 {
-			p.EOFWithData++
-			return n, io.EOF // legal: data together with EOF
+	done := 0
+	for done < n {
+		seg := &p.segs[0]
+		k := copy(b[done:n], seg.data)
+		seg.data = seg.data[k:]
+		done += k
+		if len(seg.data) == 0 {
+			p.segs = p.segs[1:]
 		}
+	}
+	p.HandedOut += n
+	if p.eofWithLast && p.closed && len(p.segs) == 0 {
+		p.EOFWithData++
+		return n, io.EOF // legal: data together with EOF
 	}
 	return n, nil
 }
